@@ -1360,6 +1360,24 @@ func (x *Exec) siteClauses(kind, name string) []*Clause {
 	return cs
 }
 
+// coverAssume: an assumed call-site clause must leave the path satisfiable somewhere (an assumption that
+// contradicts every path it is applied on silently removes those paths from the proof). At most three
+// instances per clause are emitted; the report accepts the clause if any instance is satisfiable.
+func (x *Exec) coverAssume(st *State, tag string, cl *Clause) {
+	if st.Dead || x.specEval > 0 {
+		return
+	}
+	if x.assumeCovers == nil {
+		x.assumeCovers = map[*Clause]int{}
+	}
+	if x.assumeCovers[cl] >= 3 {
+		return
+	}
+	x.assumeCovers[cl]++
+	x.Obls = append(x.Obls, &Obligation{Name: x.funcLabel() + ":cover:" + tag, Kind: "cover", Func: x.funcLabel(),
+		Assumes: st.AssumeList(), Goal: TFalse, Text: "the assumption '" + cl.Text + "' leaves its path satisfiable", Cover: true, Props: cl.Props})
+}
+
 // siteReachedObligations: a call-site assertion that no path evaluates is vacuous (the call it is
 // anchored at was removed or renamed, or every path to it died): one obligation per clause says it
 // was evaluated at least once.
@@ -1409,8 +1427,9 @@ func (x *Exec) siteBefore(st *State, ins ssa.Instruction, name string, args []Va
 		g := x.evalBool(env, cl.Expr)
 		x.oblige(st, "site", name+":"+clauseLabel(cl, i), g, cl.Text, ins, cl.Props)
 	}
-	for _, cl := range x.siteClauses("assume", name) {
+	for i, cl := range x.siteClauses("assume", name) {
 		st.Assume(x.evalBool(env, cl.Expr))
+		x.coverAssume(st, "assume:"+name+":"+clauseLabel(cl, i), cl)
 	}
 	x.runGhosts(st, env, "call:"+name)
 }
@@ -1423,8 +1442,9 @@ func (x *Exec) siteAfter(st *State, ins ssa.Instruction, name string, args []Val
 		x.oblige(st, "site", "after:"+name+":"+clauseLabel(cl, i), g, cl.Text, ins, cl.Props)
 		st.Assume(g)
 	}
-	for _, cl := range x.siteClauses("assumeafter", name) {
+	for i, cl := range x.siteClauses("assumeafter", name) {
 		st.Assume(x.evalBool(env, cl.Expr))
+		x.coverAssume(st, "assumeafter:"+name+":"+clauseLabel(cl, i), cl)
 	}
 	x.runGhosts(st, env, "after:"+name)
 }
